@@ -284,7 +284,12 @@ func HandleBulkBody(postBody []byte, ctx *fasthttp.RequestCtx, rid uint64, myid 
 	timeTook := time.Now().UnixNano() - (startTime)
 	response["took"] = timeTook / 1000
 	response["errors"] = overallError
-	response["items"] = items[0:inCount]
+	// items belongs to respItemsPool and goes back to it when this function returns, before the
+	// caller serialises the response: a request that starts in between would write its statuses
+	// over these. The response gets its own copy.
+	respItems := make([]interface{}, inCount)
+	copy(respItems, items[0:inCount])
+	response["items"] = respItems
 
 	if atleastOneSuccess {
 		return processedCount, response, nil
